@@ -20,7 +20,7 @@ ASSUMPTIONS = [
 ]
 REQUIRED = {
     "quick": {"evaluations/FCNAgent": 1500, "evaluations/MarketShareFCNAgent": 500, "evaluations/MarketMakerAgent": 800,
-              "evaluations/ArbitrageAgent": 400, "class/fcn_buy": 400, "class/fcn_sell": 400,
+              "evaluations/ArbitrageAgent": 300, "class/fcn_buy": 400, "class/fcn_sell": 400,
               "class/fcn_normal_margin": 300, "class/mm_base_from_quotes": 200, "class/mm_base_from_market_price": 100,
               "class/arb_inside_threshold": 150, "class/arb_gap_equals_threshold": 25, "class/arb_outside_threshold_index_cheap": 55,
               "class/arb_outside_threshold_index_rich": 55, "class/arb_near_threshold": 100,
